@@ -24,7 +24,7 @@ import tempfile
 import time
 
 DRIVER = "C09"
-RULE = ("fixed corpus first, outside any time box, every crash point: unstack, qr (fused and unfused), svd — operations one "
+RULE = ("fixed branching-resume scenarios first (first compute stores one branch with the shared intermediate fused away, resume adds a sibling branch; plus every crash point of the first compute; single-threaded and threads; vs NumPy); then fixed corpus, outside any time box, every crash point: unstack, qr (fused and unfused), svd — operations one "
         "task of which writes several output arrays; for every multi-output operation the crash points 'one output complete, "
         "a sibling incomplete' are additionally resumed with the threads executor, and the corpus is also crashed under the "
         "threads executor at every 2nd point; then generated "
@@ -816,6 +816,7 @@ def oracle(ctx):
     corr did not run (the Lean build is broken) the same campaign is run here without the model."""
     from common import use_repo
     use_repo()
+    branching_resume(ctx)
     if _CACHE["obs"] == 0:
         n = campaign(ctx, ctx.budget(14, 120), False, ctx.budget(50, 520), ctx.budget(1, 8))
         ctx.notes.append("oracle: %d (crash, resume) experiments without the model" % n)
@@ -824,6 +825,94 @@ def oracle(ctx):
         n = campaign(ctx, ctx.budget(4, 30), False, ctx.budget(15, 120), 0, corpus=False)
         ctx.notes.append("oracle: %d additional (crash, resume) experiments without the model" % n)
     fresh_resume(ctx)
+
+
+def branching_resume(ctx):
+    """Fixed must-hold scenarios, run first in every tier: a first compute stores one branch of a branching graph with the
+    shared intermediate fused away (absent from storage); a second compute resumes with a sibling branch that needs that
+    intermediate.  Resume must not mark the producer of the absent intermediate as computed.  Values vs NumPy."""
+    import numpy as np
+
+    import cubed
+    import cubed.array_api as xp
+    import crashstore as cs
+    from cubed.runtime.create import create_executor
+    from zarr.storage import MemoryStore
+
+    xn = (np.arange(12, dtype="int64").reshape(3, 4) * 5) % 11 - 3
+    an, bn = xn + 1, -(xn + 1)
+    cn, en = an * 3, bn + 1
+    dn = bn + cn
+
+    def graph():
+        store = cs.CrashStore(MemoryStore())
+        spec = cubed.Spec(intermediate_store=store, allowed_mem="50MB", reserved_mem=0)
+        x = xp.asarray(xn, chunks=(2, 2), spec=spec)
+        a = xp.add(x, 1)
+        b = xp.negative(a)
+        c = xp.multiply(a, 3)
+        d = xp.add(b, c)
+        e = xp.add(b, 1)
+        return store, {"b": b, "c": c, "d": d, "e": e}
+
+    want = {"b": bn, "c": cn, "d": dn, "e": en}
+
+    def ex(name):
+        return create_executor(name, {"max_workers": 4} if name == "threads" else None)
+
+    def second(case, arrs, names, executor, optimize):
+        try:
+            vals = cubed.compute(*[arrs[n] for n in names], executor=ex(executor), resume=True, optimize_graph=optimize)
+        except BaseException as e_:  # noqa: BLE001
+            ctx.fail("branching resume raised %s: %s" % (type(e_).__name__, str(e_)[:120]), case)
+            return
+        for n, v in zip(names, vals):
+            if not np.array_equal(v, want[n]):
+                ctx.fail("resume with a sibling branch returned wrong values for %s: %r (expected %r) — the producer of an "
+                         "intermediate that is absent from storage was treated as computed"
+                         % (n, np.asarray(v).tolist(), want[n].tolist()), case)
+                return
+
+    for executor in ("single-threaded", "threads"):
+        for names, optimize in ((("b", "c"), True), (("d",), False), (("b", "c"), False), (("d",), True)):
+            store, arrs = graph()
+            case = {"scenario": "branching-resume", "graph": "a=x+1; b=-a; c=a*3; d=b+c", "first": "b.compute() (optimize on: a fused away)",
+                    "second": "cubed.compute(%s, resume=True, optimize_graph=%s)" % (", ".join(names), optimize),
+                    "executor": executor}
+            try:
+                arrs["b"].compute(executor=ex("single-threaded"))
+            except BaseException as e_:  # noqa: BLE001
+                ctx.fail("first compute failed: %r" % (e_,), case)
+                continue
+            store.quiesce()
+            case["chunks_after_first"] = sorted(cs.snapshot(store))
+            second(case, arrs, names, executor, optimize)
+            ctx.count(case, nontrivial=True, kind="branching/%s" % executor)
+
+    # crash variant: the first compute (b and e = b+1) is interrupted at every write; resume adds the sibling branch c
+    store, arrs = graph()
+    store.arm(None)
+    cubed.compute(arrs["b"], arrs["e"], executor=ex("single-threaded"))
+    store.quiesce()
+    total = store.state.sets
+    for j in range(total + 1):
+        for executor in (("single-threaded", "threads") if j % 3 == 0 or j >= total - 2 else ("single-threaded",)):
+            store, arrs = graph()
+            store.arm(j)
+            try:
+                cubed.compute(arrs["b"], arrs["e"], executor=ex("single-threaded"))
+            except cs.InjectedCrash:
+                pass
+            except BaseException:  # noqa: BLE001
+                pass
+            store.quiesce()
+            snap = sorted(cs.snapshot(store))
+            store.disarm()
+            case = {"scenario": "branching-resume-after-crash", "graph": "a=x+1; b=-a; c=a*3; e=b+1",
+                    "first": "cubed.compute(b, e) interrupted after %d writes" % j, "chunks_at_crash": snap,
+                    "second": "cubed.compute(b, c, e, resume=True)", "executor": executor}
+            second(case, arrs, ("b", "c", "e"), executor, True)
+            ctx.count(case, nontrivial=bool(snap), kind="branching-crash/%s" % executor)
 
 
 def fresh_resume(ctx):
